@@ -15,7 +15,8 @@
     GAS balances; no bound on the list size, the number of ballots, heights.
     The only premise on histories is [heights_from h0 ops]:
     [ledger.CurrentIndex()] does not decrease from one transaction to the next. *)
-From Verif Require Import Base.Prelude Model.Vote Model.NeoFSVote Spec.Tally Proofs.Vote.
+From Verif Require Import Base.Prelude Model.Vote Model.NeoFSVote Model.VoteReentry Spec.Tally
+  Proofs.Vote Proofs.VoteReentry.
 Local Open Scope Z_scope.
 
 (** ** Multisig arithmetic *)
@@ -320,3 +321,105 @@ Example C17_nonvacuous_stale :
   map fst (run [(1%N, 1); (2%N, 21); (3%N, 42); (4%N, 42); (1%N, 42)]) =
     [Some false; Some false; Some false; Some false; Some true].
 Proof. split; vm_compute; reflexivity. Qed.
+
+(** ** Cheques to contract payees that call back (Model/VoteReentry.v)
+
+    The payee of a cheque may be a contract; native GAS then runs its
+    [onNEP17Payment] inside [Cheque], after the ballot has been removed and
+    before the notification.  Model/VoteReentry.v describes such a payee by a
+    finite program of nested vote-gated invocations (same witnesses, same
+    height) with an optional fault, executed with fuel; a nested fault
+    faults the whole transaction. *)
+
+(** The model used by all theorems above is the special case without contract
+    payees: same outcome, same state, same notifications. *)
+Theorem C17_reentry_plain_case : forall vp sa di f c s o,
+  plain_call s o ->
+  rexec vp (S f) c s o = lift_res (contracts s) (nexec vp sa di c (base s) (rcall_nop o)).
+Proof. exact rexec_plain. Qed.
+Print Assumptions C17_reentry_plain_case.
+
+Theorem C17_reentry_plain_step : forall vp sa di f s c o,
+  contracts s = ∅ ->
+  let r1 := rstep vp (S f) s (c, RInvoke o) in
+  let r2 := nstep vp sa di (base s) (c, rcall_nop o) in
+  base (fst (fst r1)) = fst (fst r2) /\ contracts (fst (fst r1)) = ∅ /\
+  (snd (fst r1) = None <-> snd (fst r2) = None) /\ snd r1 = snd r2.
+Proof. exact rstep_plain. Qed.
+Print Assumptions C17_reentry_plain_step.
+
+(** A contract payee that is unarmed or armed with the empty program is paid
+    exactly like a plain account (only its payment counter moves). *)
+Theorem C17_reentry_inert_payee : forall vp sa di f c s id user amount lockAcc p,
+  contracts s !! user = Some p -> inert_payee p ->
+  rexec vp (S f) c s (RCheque id user amount lockAcc) =
+  match nexec vp sa di c (base s) (Cheque id user amount lockAcc) with
+  | Halt (st', fired, ns) =>
+      Halt (mkR st' (if fired then <[user := mkPayee None (pcount p + 1)]> (contracts s) else contracts s), ns)
+  | Fault => Fault
+  end.
+Proof. exact rexec_inert_payee. Qed.
+Print Assumptions C17_reentry_inert_payee.
+
+(** For every state without two ballots of one id, every payee program and
+    every fuel: if the threshold is at least 2 (n >= 2), one transaction
+    notifies (= executes) every decision id AT MOST ONCE.  The ballot is erased
+    before the payee runs, so a nested vote for the same id by the same key
+    only opens a fresh ballot of one voter, which is below the threshold. *)
+Theorem C17_reentry_fires_once : forall vp fuel c s o s' ns,
+  NoDup (map bid (box (base s))) -> 2 <= threshold (alphabet (base s)) ->
+  rexec vp fuel c s o = Halt (s', ns) ->
+  NoDup (map notif_id ns) /\ NoDup (map bid (box (base s'))) /\ alphabet (base s') = alphabet (base s).
+Proof. exact reentry_once_thm. Qed.
+Print Assumptions C17_reentry_fires_once.
+
+(** The same over every history of transactions (invocations, arming and
+    disarming of payee contracts) from the deploy state. *)
+Theorem C17_reentry_history_once : forall vp fuel keys cfg g payees ops c o,
+  let s := rhist vp fuel (rinit keys cfg g payees) ops in
+  2 <= threshold (alphabet (base s)) ->
+  NoDup (map notif_id (snd (rstep vp fuel s (c, RInvoke o)))).
+Proof. exact reentry_history_once_thm. Qed.
+Print Assumptions C17_reentry_history_once.
+
+(** The top-level invocation executes nothing below the threshold; at the
+    threshold its own action is the last thing notified (after whatever the
+    payee's nested invocations legitimately completed). *)
+Theorem C17_reentry_top : forall vp f c s o s' ns k,
+  NoDup (map bid (box (base s))) -> alphabet_invoker vp c (base s) = Halt k ->
+  rexec vp (S f) c s o = Halt (s', ns) ->
+  let cnt := Z.of_nat (length (tally_incl (abs_box (box (base s))) (rcall_id o) k (height c))) in
+  (cnt < threshold (alphabet (base s)) /\ ns = [] /\ contracts s' = contracts s) \/
+  (threshold (alphabet (base s)) <= cnt /\
+   stored_tally (box (base s)) (rcall_id o) (height c) ⊆ tally_incl (abs_box (box (base s))) (rcall_id o) k (height c) /\
+   exists ns0, ns = ns0 ++ notifs_of (rcall_nop o)).
+Proof. exact reentry_top_thm. Qed.
+Print Assumptions C17_reentry_top.
+
+(** The premise [2 <= threshold] is needed: with a single Alphabet key every
+    vote is a complete tally, so the payee's nested vote for the same id is a
+    second, complete decision (two notifications with one id). *)
+Definition xH : bytes := repeat 202%N 20.
+Definition xprog : program := mkProg [RCheque (xid 1) xH 10 []] false.
+Theorem C17_reentry_fires_once_n1_refuted :
+  exists c s o s' ns,
+    NoDup (map bid (box (base s))) /\ threshold (alphabet (base s)) = 1 /\
+    rexec xvp 4 c s o = Halt (s', ns) /\ map notif_id ns = [xid 1; xid 1].
+Proof.
+  exists (xc 1 1), (mkR (ninit [xk 1] ∅ xg) {[ xH := mkPayee (Some xprog) 0 ]}), (RCheque (xid 1) xH 10 []).
+  eexists _, _. split; [constructor|]. split; [reflexivity|]. split; vm_compute; reflexivity.
+Qed.
+Print Assumptions C17_reentry_fires_once_n1_refuted.
+
+(** Non-vacuity, n = 4 (threshold 3), payee armed to vote for the same cheque
+    again: the third vote pays once (10), one notification; the nested vote
+    leaves a fresh ballot with one voter; the payee saw one payment. *)
+Example C17_reentry_nonvacuous :
+  let s0 := mkR (ninit xA ∅ xg) {[ xH := mkPayee (Some xprog) 0 ]} in
+  let chq := RInvoke (RCheque (xid 1) xH 10 []) in
+  let s3 := rhist xvp 4 s0 [(xc 1 1, chq); (xc 2 2, chq)] in
+  let '(s', r, ns) := rstep xvp 4 s3 (xc 3 3, chq) in
+  (r, ns, gas_bal (gas (base s')) xH, map (fun b => (bid b, voters b)) (box (base s')),
+   contracts s' !! xH)
+  = (Some true, [NCheque (xid 1) xH 10 []], 10, [(xid 1, [xk 3])], Some (mkPayee None 1)).
+Proof. vm_compute. reflexivity. Qed.
